@@ -11,7 +11,8 @@ KINDS = {0: "single-thread program", 1: "x-thread: handle awaited elsewhere",
          2: "x-thread: handle dropped/cancelled/detached elsewhere",
          3: "x-thread: wakers elsewhere vs tick and executor drop",
          4: "x-thread forced: waker holds Shared across teardown",
-         5: "x-thread forced: handle inside SETTING_WAKER at completion"}
+         5: "x-thread forced: handle inside SETTING_WAKER at completion",
+         6: "x-thread forced: handle inside SETTING_WAKER during Task::drop (waker release)"}
 
 
 def spawn_op(rng):
@@ -64,7 +65,7 @@ def program(rng, adversarial):
 
 
 def xthread(rng):
-    k = rng.choice([1, 1, 2, 2, 2, 3, 3, 4, 5])
+    k = rng.choice([1, 1, 2, 2, 2, 3, 3, 4, 5, 6])
     return [k, rng.randrange(0, 12), rng.randrange(0, 4000), rng.randrange(0, 6)]
 
 
